@@ -820,6 +820,10 @@ struct Fam {
 }
 
 pub struct GenCfg {
+    /// restrict the operation families (empty = all families of the focus)
+    pub only_fams: Vec<String>,
+    /// upper bound on threads per scenario (0 = default distribution)
+    pub max_threads: usize,
     pub focus: String,
     pub max_window: usize,
     pub min_window: usize,
@@ -932,12 +936,16 @@ pub fn gen_plan(seed: u64, cfg: &GenCfg) -> SchedPlan {
         14..=17 => r.range(5, 8),
         _ => r.range(9, 16),
     };
-    let fams: Vec<&Fam> = if cfg.focus == "wnaf" { FAMS.iter().filter(|f| WNAF_FAMS.contains(&f.name)).collect() } else { FAMS.iter().collect() };
+    let nthreads = if cfg.max_threads > 0 { nthreads.min(cfg.max_threads) } else { nthreads };
+    let mut fams: Vec<&Fam> = if cfg.focus == "wnaf" { FAMS.iter().filter(|f| WNAF_FAMS.contains(&f.name)).collect() } else { FAMS.iter().collect() };
+    if !cfg.only_fams.is_empty() {
+        fams.retain(|f| cfg.only_fams.iter().any(|n| n == f.name));
+    }
     let mut enabled: Vec<&Fam> = fams.iter().copied().filter(|_| r.chance(2, 5)).collect();
     while enabled.len() < 2 {
         enabled.push(*r.pick(&fams));
     }
-    let mut budget: i64 = if cfg.focus == "wnaf" { 30_000 } else { 40_000 }; // microseconds of estimated work per run
+    let mut budget: i64 = if cfg.max_window > 16 { 1 } else if cfg.focus == "wnaf" { 30_000 } else { 40_000 }; // microseconds of estimated work per run
     let mut threads = vec![];
     for _ in 0..nthreads {
         let nops = match r.below(8) {
